@@ -171,6 +171,11 @@ def run(ctx):
                 break
         bucket = rm[0]["argv"][1]
         ok4 = ch.count("mapped") >= 3 and t is bucket and all(c in ("collected", "iter", "cloned_iter", "mapped") for c in ch[:-1])
+        if not ok4:
+            # the same fact however the list is built (adaptor chain, or a vector pushed to once per report in a loop):
+            # it is the element-for-element, ordered image of the bucket
+            src4 = Q.whole_of(aux, eng, True)
+            ok4 = src4 is not None and (src4 is bucket or (Q.path_of(src4) is not None and Q.path_of(src4) == Q.path_of(bucket)))
         ctx.add("C18.R4", AS + "::recover_measurements#one-aux-per-report", ok4,
                 "the aux list must be produced by map/collect over the bucket's reports (one entry per report); chain %s" % ch,
                 rm[0]["at"], sample=ch)
@@ -247,6 +252,9 @@ def run(ctx):
     rf = [fk for fk, es in by_frame.items() if len(es) == 2]
     lb = by_frame[rf[0]] if len(rf) == 1 else []
     rets = [ev for k, ev in eng.events.items() if k[1] == "ret" and len(rf) == 1 and ev["frame"] == rf[0]]
+    if rets and not (rets[0].get("value") is not None and rets[0]["value"].op == "agg" and len(rets[0]["value"].args) == 3 and
+                     lin.window(rets[0]["value"].args[1]) is not None):
+        rets = []          # the two reads sit in a function that returns something else (the reader was inlined)
     if not rets:
         # the chunks may be read through a cursor type instead of load_bytes: the reader is then the function below
         # recover_measurements that returns the (measurement bytes, Option<aux>) pair cut out of one byte string
@@ -256,6 +264,21 @@ def run(ctx):
             if v_ is not None and "recover_measurements" in ev["frame"] and v_.op == "agg" and len(v_.args) == 3 and \
                     is_t(v_.args[2]) and v_.args[2].op in ("enum", "phi") and lin.window(v_.args[1]) is not None:
                 cands.append(ev)
+        if not cands:
+            # the reader inlined into a loop of recover_measurements: the per-report value is what is pushed
+            for ev in Q.calls(eng, "::push"):
+                v_ = ev["argv"][1] if len(ev["argv"]) > 1 else None
+                if v_ is not None and "recover_measurements" in ev["frame"] and v_.op == "agg" and len(v_.args) == 3 and \
+                        is_t(v_.args[2]) and v_.args[2].op in ("enum", "phi") and lin.window(v_.args[1]) is not None:
+                    cands.append({"value": v_, "frame": ev["frame"], "kind": "ret"})
+        # (a wrapper that returns the reader's value unchanged - a closure around it - is the same candidate: keep the
+        # innermost frame)
+        byval = {}
+        for ev in cands:
+            cur = byval.get(ev["value"].id)
+            if cur is None or len(ev["frame"]) > len(cur["frame"]):
+                byval[ev["value"].id] = ev
+        cands = list(byval.values())
         if len(cands) == 1:
             rets = cands
             w_ = lin.window(cands[0]["value"].args[1])
